@@ -1,1 +1,80 @@
-From LW Require Import Model.Circuit.
+(* C02 — adding a sub-circuit wires it in order; heralded modes become private
+   ancillas.  Statements only; every proof is [exact <lemma>].
+
+   What is proved here (for all circuits, all mode numbers, all histories of the
+   parent): the user-mode numbering (user mode u = the u-th non-ancilla mode,
+   order preserving, never an ancilla), the acceptance rule of add (an addition
+   is accepted exactly when it fits into the non-ancilla modes from there on,
+   otherwise ModeRangeError), and that components appended later act as the
+   identity on every ancilla.  The matrix-level wiring statement of DESIGN C02
+   (U_R = E . iota(U_P)) is NOT proved in Coq; it is decided on every run by
+   the correspondence (model of the repaired Circuit.add = implementation) and
+   by the independent wiring reference in harness/c02.py. *)
+From Coq Require Import ZArith List Bool Arith Lia.
+From LW Require Import Base.Sx Base.Num Base.Mat Model.Circuit Proofs.CircuitP Proofs.AddP.
+Import ListNotations.
+
+(* user mode z is mapped to the z-th mode that is not an ancilla: the result is
+   no ancilla and exactly z non-ancilla modes lie below it *)
+Theorem C02_user_mode_is_rank_among_non_ancillas :
+  forall (internal : list nat) (z : Z),
+    NoDup internal ->
+    let r := map_mode internal z in
+    (forall i, In i internal -> Z.of_nat i <> r) /\ (r - below internal r = z)%Z /\ (z <= r)%Z.
+Proof. exact map_mode_spec. Qed.
+Print Assumptions C02_user_mode_is_rank_among_non_ancillas.
+
+Theorem C02_user_mode_numbering_order_preserving :
+  forall internal (a b : Z), (a < b)%Z -> (map_mode internal a < map_mode internal b)%Z.
+Proof. exact map_mode_mono. Qed.
+Print Assumptions C02_user_mode_numbering_order_preserving.
+
+(* add is accepted iff the (mapped) mode exists and the sub-circuit's non-heralded
+   modes fit into the parent's non-ancilla modes from that mode on *)
+Theorem C02_add_accepted_iff_fits :
+  forall (K : Type) (o : ops K) (c sub : circ (K:=K)) (mode : Z) (g : bool),
+    (exists c', op_add o c sub mode g = Ok c') <->
+    (exists m, mode_ok c (map_mode (c_int c) mode) = Ok m /\ open_modes sub <= avail_from c m).
+Proof. exact (fun K o => @op_add_accept_iff K o). Qed.
+Print Assumptions C02_add_accepted_iff_fits.
+
+Theorem C02_add_rejects_with_mode_range_error :
+  forall (K : Type) (o : ops K) (c sub : circ (K:=K)) mode g e,
+    op_add o c sub mode g = Err e -> e = ModeRangeError.
+Proof. exact (fun K o => @op_add_reject_class K o). Qed.
+Print Assumptions C02_add_rejects_with_mode_range_error.
+
+(* every primitive appended to a circuit acts only on non-ancilla modes ... *)
+Theorem C02_later_components_avoid_ancillas :
+  forall (K : Type) (o : ops K) (e : env (K:=K)) (c c' : circ (K:=K)),
+    NoDup (c_int c) ->
+    (forall m1 m2 r l cv, op_bs o e c m1 m2 r l cv = Ok c' ->
+       exists added, c_spec c' = c_spec c ++ added /\ c_int c' = c_int c /\
+                     forall x, In x added -> forall i, In i (comp_modes x) -> ~ In i (c_int c)) /\
+    (forall m phi l, op_ps o e c m phi l = Ok c' ->
+       exists added, c_spec c' = c_spec c ++ added /\ c_int c' = c_int c /\
+                     forall x, In x added -> forall i, In i (comp_modes x) -> ~ In i (c_int c)) /\
+    (forall m l, op_loss o e c m l = Ok c' ->
+       exists added, c_spec c' = c_spec c ++ added /\ c_int c' = c_int c /\
+                     forall x, In x added -> forall i, In i (comp_modes x) -> ~ In i (c_int c)).
+Proof.
+  exact (fun K o e c c' H =>
+           conj (fun m1 m2 r l cv => @op_bs_untouched K o e c m1 m2 r l cv c' H)
+          (conj (fun m phi l => @op_ps_untouched K o e c m phi l c' H)
+                (fun m l => @op_loss_untouched K o e c m l c' H))).
+Qed.
+Print Assumptions C02_later_components_avoid_ancillas.
+
+(* ... and a component is the identity on every mode it does not act on *)
+Theorem C02_components_identity_off_their_modes :
+  forall (K : Type) (o : ops K),
+    (forall m1 m2 x cv i j, i <> m1 -> i <> m2 ->
+       bs_mat o m1 m2 x cv i j = mid (cplx o) i j /\ bs_mat o m1 m2 x cv j i = mid (cplx o) j i) /\
+    (forall m x i j, i <> m ->
+       ps_mat o m x i j = mid (cplx o) i j /\ ps_mat o m x j i = mid (cplx o) j i).
+Proof. exact (fun K o => conj (@bs_mat_off K o) (@ps_mat_off K o)). Qed.
+Print Assumptions C02_components_identity_off_their_modes.
+
+Example C02_map_mode_nonvacuous :
+  map_mode [1; 3] 0 = 0%Z /\ map_mode [1; 3] 1 = 2%Z /\ map_mode [1; 3] 2 = 4%Z /\ NoDup [1; 3].
+Proof. repeat split; repeat constructor; simpl; intuition; discriminate. Qed.
